@@ -18,6 +18,43 @@ add("C07", "exploration",
     "Trusts Vec<u8> slicing as the reference and the harness's own bookkeeping; inverted ranges (start > end) are outside the statement and not generated.",
     "DESIGN.md §3 C07")
 
+
+add("C01", "exploration",
+    "runtime history monitor on the real TCB pair: byte-stream prefix oracle after every step + bounded-round convergence oracle over random fault schedules",
+    "Held on every executed schedule: two real Tcb endpoints are driven through random interleavings of writes/reads/timer ticks and per-segment deliver/drop/duplicate/reorder choices; after every step what each side has read must be a prefix of what the other wrote, and after faults stop a bounded number of fair rounds must deliver everything, empty both queues and silence both endpoints. 3,200 (quick) / 204,800 (thorough) schedules; sampling, not proof.",
+    "Trusts the harness's driver (tcbsim.rs) and its round bound; close() is not issued here (C03).",
+    "DESIGN.md §3 C01")
+add("C03", "exploration",
+    "runtime monitor over enumerated and random executions of the real TCB pair: RFC 9293 transition-relation checker on every API call, sequence synchronisation invariants, data-before-FIN and bounded release oracles",
+    "Every API call's (state before, state after) must be a path of RFC 9293 fig. 5 edges justified by segments actually delivered; rcv.nxt/snd.nxt/snd.una of the two sides are compared at every step and for equality at quiescence; the first time a side shows the peer's FIN consumed it must have been able to read everything written before that close; after both closes a fair network must release both ends within 40 rounds + 2*MSL without RST. Bounded DFS over executions (state-hashed, budgeted) plus random schedules; all 19 edges are exercised in every quick run.",
+    "DFS is budget-bounded (not exhaustive unless dfs_exhausted_within_budget says so); applications read eagerly.",
+    "DESIGN.md §3 C03")
+add("C09", "exploration",
+    "runtime differential monitor: real IpTable/Ipv4Net vs list model and u64 interval arithmetic, probed at every boundary address after every operation",
+    "Held on all executed table histories and arithmetic cases: longest-prefix result, add/remove return values and iteration order are compared with an independent model after every operation at every boundary address of every network ever inserted; subnet arithmetic is compared with interval arithmetic for all 33 mask lengths and all 33x33 pairs.",
+    "Sampling of the 2^32 address space with boundary bias; the model is ~20 lines of independent code.",
+    "DESIGN.md §3 C09")
+add("C10", "exploration",
+    "runtime invariant + reference-model monitor on the real fragmenter (random datagrams through MTU chains; exhaustive small scope in thorough)",
+    "Every produced fragment list is checked for fit, 8-byte aligned consecutive offsets, byte-exact content placement, MF/DF flags relative to the original datagram, preservation of all other fields, and equality with an independently computed RFC 791 cut; pass-through and discard rules are checked on the same inputs.",
+    "Input headers are self-consistent; checksum field is not judged (C18).",
+    "DESIGN.md §3 C10")
+add("C11", "exploration",
+    "runtime history monitor: every Reassembly::receive_packet result vs a block-coverage model, expiry callbacks observed by probing a clone",
+    "For interleaved, shuffled, duplicated and overlapping fragments of up to 5 datagrams the real reassembler must complete exactly when the model's coverage since the last completion is total and return the original bytes and header; the effect of every expiry callback (fresh or stale epoch) is observed by feeding the missing blocks to a clone. Two genuine defects found here are recorded as known findings.",
+    "Fragments come from the harness's own cutter; completion is judged in RFC 791's 8-octet blocks.",
+    "DESIGN.md §3 C11")
+add("C12", "exploration",
+    "metamorphic runtime monitor: same schedule under shifted ISNs must give identical normalised traces; comparison primitives vs modular arithmetic",
+    "Each C01-style schedule is executed under two ISN pairs, the second placed so the sequence space wraps 2^32 or crosses 2^31 during handshake or transfer; flags, lengths, windows, relative seq/ack of every emitted segment, states, deliveries and releases must agree step by step. mod_lt/leq/gt/geq/bounded are compared with (b-a) mod 2^32 on millions of boundary-biased samples.",
+    "Equality of two runs is judged, not their correctness (C01 does that).",
+    "DESIGN.md §3 C12")
+add("C17", "exploration",
+    "runtime robustness monitor: crafted segments injected into a live real TCB pair; no-panic, send-window and unacceptable-segment-has-no-effect oracles (immediate and delayed)",
+    "All 64 flag combinations with boundary-biased seq/ack/window/length are injected at every reachable state, interleaved with legitimate traffic; any panic is a violation, new data must stay inside SND.UNA+SND.WND, and a segment that RFC 9293 table 6 makes unacceptable must change neither state nor delivered bytes, immediately and (mode U) after the legitimate stream continues over a fair network. One deliberate deviation of the implementation (window widened to RCV.NXT-1) is a known finding.",
+    "Acceptability is computed by the harness from the victim's observed RCV.NXT/RCV.WND; ACK bookkeeping and replies to unacceptable segments are not judged.",
+    "DESIGN.md §3 C17")
+
 NOT_YET = {
 }
 
